@@ -576,6 +576,12 @@ def setCell (s : St) (n : Name) (v : Nat) : Except Err St :=
 /-- `WriteToBuffer`: every decoded worksheet is stored into the package -/
 def save (s : St) : St := { s with pkg := (s.parts.map (·.1)).foldr insSorted s.pkg }
 
+/-- `WriteToBuffer` followed by `OpenReader` on the written bytes, the history continuing on the opened
+workbook: every worksheet is a package part, the sheet list with its ids and rIds, the relationships,
+content types, defined names, active tab and tab selection are read back as written (ids may have gaps
+and any order), `sheetMap` is rebuilt from the relationships, worksheets are decoded on demand. -/
+def reopen (s : St) : St := save s
+
 /-- What an observer does after a call: `GetCellValue(sheet, "A1")` for every listed sheet.  The first
 read of a stored cell loads the shared strings (`sharedStringsReader`) and registers their
 relationship in workbook.xml.rels, which shifts the rIds of sheets created later. -/
@@ -594,7 +600,7 @@ inductive Op
   | rename (src tgt : Name) | visible (n : Name) (v vh : Bool) | active (i : Int)
   | group (ns : List Name) | ungroup | defname (k : Nat) (scope : Name) (data : Name) | deldef (k : Nat) (scope : Name)
   | setcell (n : Name) (v : Nat)
-  | save | observe
+  | save | observe | reopen
   deriving Repr
 
 /-- one API call: new state (the old one when the call is rejected) and whether it returned an error -/
@@ -633,6 +639,7 @@ def step (s : St) : Op → St × Option Err
     | .error e => (s, some e)
   | .save => (save s, none)
   | .observe => (observe s, none)
+  | .reopen => (reopen s, none)
 
 def run (s : St) (ops : List Op) : St := ops.foldl (fun s o => (step s o).1) s
 
@@ -784,6 +791,7 @@ def step (b : Book) : Op → Book × Bool
     | none => (b, false)
   | .save => (b, true)
   | .observe => (b, true)
+  | .reopen => (b, true)
 
 end Spec
 
